@@ -824,7 +824,7 @@ class SRec(ndarray):
                 raise ValueError('no field of name %s' % k)
             return self.cols[k]
         if isinstance(k, (int, rnp.integer)):
-            return tuple(self.cols[n][k] for n in self.dt.names)
+            return SRow(self, int(k))
         if isinstance(k, SArr) and k.symbolic and k.dt.kind == 'b':
             k = k.concretise_mask()
         return SRec({n: c[k] for n, c in self.cols.items()}, self.dt)
@@ -865,6 +865,31 @@ class SRec(ndarray):
     def __eq__(self, o):
         raise NotModelled('SRec ==')
     __hash__ = None
+
+
+class SRow(tuple):
+    """one record of a structured array (numpy.void): a tuple of the field values that can also be read and written by
+    field name, writes going through to the array"""
+    def __new__(cls, rec, i):
+        o = tuple.__new__(cls, tuple(rec.cols[n][i] for n in rec.dt.names))
+        o._rec, o._i = rec, i
+        return o
+
+    def __getitem__(self, k):
+        if isinstance(k, str):
+            if k not in self._rec.cols:
+                raise ValueError('no field of name %s' % k)
+            return self._rec.cols[k][self._i]
+        return tuple.__getitem__(self, k)
+
+    def __setitem__(self, k, v):
+        if not isinstance(k, str):
+            raise NotModelled('positional assignment into a record')
+        self._rec.cols[k][self._i] = v
+
+    @property
+    def dtype(self):
+        return self._rec.dt
 
 
 class _OpaqueField:
@@ -1015,14 +1040,14 @@ VMATRIX = {}
 def loadtxt(fname, *a, **k):
     if isinstance(fname, str) and fname in VMATRIX:
         m = VMATRIX[fname]
-        return m.copy() if isinstance(m, SArr) else asarray(m)
+        return m.copy() if isinstance(m, (SArr, SRec)) else asarray(m)
     return delegate(rnp.loadtxt, fname, *a, **k)
 
 
 def genfromtxt(fname, *a, **k):
     if isinstance(fname, str) and fname in VMATRIX:
         m = VMATRIX[fname]
-        return m.copy() if isinstance(m, SArr) else asarray(m)
+        return m.copy() if isinstance(m, (SArr, SRec)) else asarray(m)
     return delegate(rnp.genfromtxt, fname, *a, **k)
 
 
